@@ -115,6 +115,16 @@ class BuildResult:
 THEOREM_RE = re.compile(r'^\s*(?:private\s+|protected\s+)?(?:theorem|lemma)\s+([A-Za-z0-9_.\']+)', re.M)
 
 
+PRIVATE_RE = re.compile(r'^\s*private\s+(?:theorem|lemma)\s+([A-Za-z0-9_.\']+)', re.M)
+
+
+def private_names(lean_file):
+    try:
+        return set(PRIVATE_RE.findall(_strip_comments(open(lean_file, encoding='utf8').read())))
+    except FileNotFoundError:
+        return set()
+
+
 def theorem_names(lean_file):
     try:
         txt = _strip_comments(open(lean_file, encoding='utf8').read())
@@ -170,7 +180,8 @@ def build(prop_id, bridge_modules=(), props_modules=None):
             names = theorem_names(pfile)
             res.obligations += [f'{props_module}:{n}' for n in names]
             ns = _namespace_of(pfile)
-            audit += [(props_module, ns, n) for n in names]
+            priv = private_names(pfile)      # helper lemmas: audited through the public theorems that use them
+            audit += [(props_module, ns, n) for n in names if n not in priv]
             rc, out = _run(['lake', 'build', props_module], cwd=LEAN)
             res.log += out
             if rc != 0:
